@@ -4,6 +4,8 @@ import (
 	"fmt"
 	"go/ast"
 	"go/token"
+	"os"
+	"path/filepath"
 	"regexp"
 	"sort"
 	"strings"
@@ -709,6 +711,119 @@ func genC15() {
 		} else if fd != nil {
 			fail("%s: FS.open: expected the parameters (name, hops)", rel)
 		}
+	}
+	// ---- final round: the `for { x, err := r.Next() … }` loops over tar entries, found by SHAPE in every
+	// non-test file under pkg/: a `for` without condition whose first statement assigns two results of a call
+	// `<anything>.Next()`. For each: is there, among the if-statements on the error variable that directly
+	// follow, one with the condition `err != nil` (possibly as an else-if) whose body ends in return or break —
+	// i.e. does EVERY error of Next (io.EOF included) leave the loop — and is io.EOF tested on its own before it.
+	{
+		type loopSite struct {
+			key            string
+			eofOwn, errOut bool
+		}
+		var loops []loopSite
+		leaves := func(b *ast.BlockStmt) bool {
+			if b == nil || len(b.List) == 0 {
+				return false
+			}
+			switch x := b.List[len(b.List)-1].(type) {
+			case *ast.ReturnStmt:
+				return true
+			case *ast.BranchStmt:
+				return x.Tok == token.BREAK && x.Label == nil
+			}
+			return false
+		}
+		mentions := func(e ast.Expr, name string) bool {
+			r := false
+			ast.Inspect(e, func(m ast.Node) bool {
+				if id, ok := m.(*ast.Ident); ok && id.Name == name {
+					r = true
+				}
+				return true
+			})
+			return r
+		}
+		var rels []string
+		_ = filepath.WalkDir(filepath.Join(*repo, "pkg"), func(p string, d os.DirEntry, err error) error {
+			if err != nil || d.IsDir() || !strings.HasSuffix(p, ".go") || strings.HasSuffix(p, "_test.go") || strings.HasSuffix(p, "_verif.go") {
+				return nil
+			}
+			if r, e := filepath.Rel(*repo, p); e == nil {
+				rels = append(rels, filepath.ToSlash(r))
+			}
+			return nil
+		})
+		sort.Strings(rels)
+		for _, rel := range rels {
+			f := load(rel)
+			if f == nil {
+				continue
+			}
+			for _, d := range f.Decls {
+				fd, ok := d.(*ast.FuncDecl)
+				if !ok || fd.Body == nil {
+					continue
+				}
+				name := fd.Name.Name
+				if fd.Recv != nil && len(fd.Recv.List) > 0 {
+					name = recvName(fd.Recv.List[0].Type) + "." + name
+				}
+				n := 0
+				ast.Inspect(fd.Body, func(m ast.Node) bool {
+					fs, ok := m.(*ast.ForStmt)
+					if !ok || fs.Cond != nil || fs.Init != nil || fs.Post != nil || len(fs.Body.List) == 0 {
+						return true
+					}
+					as, ok := fs.Body.List[0].(*ast.AssignStmt)
+					if !ok || len(as.Lhs) != 2 || len(as.Rhs) != 1 {
+						return true
+					}
+					c, ok := as.Rhs[0].(*ast.CallExpr)
+					if !ok || len(c.Args) != 0 {
+						return true
+					}
+					se, ok := c.Fun.(*ast.SelectorExpr)
+					if !ok || se.Sel.Name != "Next" {
+						return true
+					}
+					ev, ok := as.Lhs[1].(*ast.Ident)
+					if !ok {
+						return true
+					}
+					n++
+					site := loopSite{key: fmt.Sprintf("%s:%s#%d", rel, name, n)}
+					for _, st := range fs.Body.List[1:] {
+						is, ok := st.(*ast.IfStmt)
+						if !ok || !mentions(is.Cond, ev.Name) || site.errOut {
+							break
+						}
+						for cur := is; cur != nil; {
+							txt := exprText(cur.Cond)
+							if txt == ev.Name+" != nil" && leaves(cur.Body) {
+								site.errOut = true
+							} else if strings.Contains(txt, "io.EOF") && leaves(cur.Body) && !site.errOut {
+								site.eofOwn = true
+							}
+							next, _ := cur.Else.(*ast.IfStmt)
+							cur = next
+						}
+					}
+					loops = append(loops, site)
+					return true
+				})
+			}
+		}
+		if len(loops) == 0 {
+			fail("no `for { x, err := r.Next() }` loop found under pkg/ (the tar reader sites)")
+		}
+		var rows []string
+		for _, l := range loops {
+			rows = append(rows, fmt.Sprintf("(%s, (%v, %v))", coqStr(l.key), l.eofOwn, l.errOut))
+		}
+		g.def("tar_next_loops", "list (string * (bool * bool))", "["+strings.Join(rows, ";\n  ")+"]",
+			"`for { x, err := r.Next() }` loops under pkg/: (file:function#n, (io.EOF tested on its own and leaves, `err != nil` leaves))")
 	}
 	// lock.FromFile and GroupEntry / UserEntry parsing are pinned above; lock.FromFile's sites:
 	if fd := findFunc("pkg/lock/lock.go", "", "FromFile"); fd != nil {
